@@ -86,5 +86,5 @@ func run(c *core.Ctx) {
 		c.Add("repo_test_lifecycle_groups", int64(len(groups)))
 		ltrace.Validate(c, groups, "repo-tests", func(e ltrace.Event) bool { return e["ev"] != "Dispatch" })
 	}
-	c.Set("rule", "scenario = (role, 4x4 own policy [+ integrity-only REQUIRED in thorough], own method list, honest peer level, fresh/resumed + session kind + how the session was established (honest / OmitECDH / TruncateECDH / NoCommonCipher, own encryption level then), set of deviation switches), every one enumerated by TLC from HandshakeEvil.tla; each scenario is ONE real handshake of security.Authenticator against the scripted peer (two for resumed: establish, resume) followed by one application message; a scenario whose peer answers NO is executed once per rendering of that answer (literal, attribute omitted, lower case, boolean, garbage); the projected outcome must be a terminal state the specification allows for that scenario; distinct = distinct scenario; all executed scenarios are non-trivial")
+	c.Set("rule", "scenario = (role, 4x4 own policy [+ integrity-only REQUIRED in thorough], own method list, policy source for a server (its own config, or the ServerConfigForCommand hook over a weaker base config), honest peer level, fresh/resumed + session kind + how the session was established (honest / OmitECDH / TruncateECDH / NoCommonCipher, own encryption level then), set of deviation switches), every one enumerated by TLC from HandshakeEvil.tla; each scenario is ONE real handshake of security.Authenticator against the scripted peer (two for resumed: establish, resume) followed by one application message; a scenario whose peer answers NO is executed once per rendering of that answer (literal, attribute omitted, lower case, boolean, garbage); the projected outcome must be a terminal state the specification allows for that scenario; distinct = distinct scenario; all executed scenarios are non-trivial")
 }
